@@ -152,7 +152,7 @@ def stmt_src(s, ind=0):
         _, n, ps, rt, body, whens = s
         # parameters are declared with their type (name prefix): an untyped parameter is opaque and makes
         # e.g. `1 - p` statically decimal
-        return (pad + "function %s(%s) return %s is\nbegin\n" % (n.lower(), ", ".join("%s:%s" % (p.lower(), TYPENAME[p[0].lower()]) for p in ps), TYPENAME[rt])
+        return (pad + "function %s(%s) return %s is\nbegin\n" % (n.lower(), ", ".join(("%s:%s" % (p.lower(), TYPENAME[p[0].lower()])) if p[0].lower() in "idbs" else p.lower() for p in ps), TYPENAME[rt])
                 + stmts_src(body, ind + 1) + whens_src(whens, ind) + pad + "end;\n")
     raise ValueError(s)
 
@@ -191,7 +191,7 @@ def stmt_sexp(s):
     if k == "func":
         _, n, ps, rt, body, whens = s
         tyc = {"i": "i0", "d": "d0", "b": "b0", "s": "s0", "?": "?0"}
-        return "(func %s (%s) %s (body %s)%s)" % (n, " ".join("(%s %s)" % (p, tyc[p[0].lower()]) for p in ps), tyc[rt],
+        return "(func %s (%s) %s (body %s)%s)" % (n, " ".join("(%s %s)" % (p, tyc.get(p[0].lower(), "?0")) for p in ps), tyc[rt],
                                                   stmts_sexp(body), whens_sexp(whens))
     raise ValueError(s)
 
